@@ -634,7 +634,8 @@ def run(ctx):
     ctx.product_run('isolation', 'checks.c04:run_isolation', iso)
     if ctx.violations:
         # the products below build one model per case in long-lived workers and presuppose that model objects do not share state
-        ctx.cap('stage isolation found violations: model objects share state, the remaining stages were not run')
+        ctx.cap('stage isolation (a default model run after another model was configured) found violations; the remaining stages, '
+                'which presuppose that model objects do not share state, were not run')
         return
 
     # --- stage 1: conservation products on the analytic environments ------------------------------------------
